@@ -10,6 +10,11 @@
                  x (location class, default-location existence) applied to both stores;
                  plus, for a reduced set of sources, every combination of location classes and
                  default-location existence of the two stores.
+                 plus (InitEmpty) PRESENT-BUT-EMPTY sources: every assignment unset / set / empty of the three
+                 variables x uniform key states of the first existing file (incl. "key=" with no value), and uniform
+                 variable states x every present / empty-valued / absent assignment of its keys;
+                 plus (InitKind) candidates that EXIST BUT ARE NOT READABLE FILES (directories): every file / directory
+                 assignment of the existing candidates (1, 2 or 3 of them) with at least one directory.
    Mode "face":  transport URIs over all supported and some unsupported schemes, hosts, ports. *)
 EXTENDS ClientConf
 CONSTANTS Mode, Thorough
@@ -24,7 +29,7 @@ KeyFns(E) ==
   IF E = {} THEN {[i \in 1..4 |-> All("absent")]}
   ELSE LET f1 == MinOf(E)  f2 == MaxOf(E) IN
        {[i \in 1..4 |-> IF i = f1 THEN k1 ELSE IF i = f2 THEN k2 ELSE All("absent")] :
-          k1 \in [Settings -> KeyStates],
+          k1 \in [Settings -> KeyStates \ {"emptyval"}],
           k2 \in (IF f1 = f2 THEN {All("absent")} ELSE {All("absent"), All("present")})}
 \* content class of every existing file (see ClientConf: "plain" | "empty" = 0 bytes | "blank" = only
 \* whitespace and comment lines); the first existing file takes every class its keys allow
@@ -32,22 +37,50 @@ BodyFns(E, k) ==
   IF E = {} THEN {[i \in 1..4 |-> "plain"]}
   ELSE LET f1 == MinOf(E) IN
        {[i \in 1..4 |-> IF i = f1 THEN b ELSE "plain"] : b \in BodiesAllowed(k[f1])}
-CfgV(E, k, b, e, l, d, v) == [n |-> 4, exist |-> E, key |-> k, body |-> b, env |-> e, loc |-> l, defx |-> d, val |-> v]
+AllFiles == [i \in 1..4 |-> "file"]
+CfgK(E, kd, k, b, e, l, d, v) == [n |-> 4, exist |-> E, kind |-> kd, key |-> k, body |-> b, env |-> e, loc |-> l, defx |-> d, val |-> v]
+CfgV(E, k, b, e, l, d, v) == CfgK(E, AllFiles, k, b, e, l, d, v)
 CfgB(E, k, b, e, l, d) == CfgV(E, k, b, e, l, d, "plain")
 \* (the product is enumerated by TLC through the quantifiers of Init; building it as one set value first
 \*  made TLC spend minutes normalising a set of 7*10^4 large records)
-InitDiagonal == \E E \in Patterns : \E k \in KeyFns(E) : \E b \in BodyFns(E, k) : \E e \in [Settings -> BOOLEAN] :
+InitDiagonal == \E E \in Patterns : \E k \in KeyFns(E) : \E b \in BodyFns(E, k) : \E e \in [Settings -> {"unset", "set"}] :
                   \E lc \in LocClasses : \E dx \in DefLists :
                     x = CfgB(E, k, b, e, [s \in Stores |-> lc], [s \in Stores |-> dx])
-InitCross == \E E \in {{}, {2}} : \E ks \in KeyStates : \E b \in BOOLEAN :
+InitCross == \E E \in {{}, {2}} : \E ks \in KeyStates \ {"emptyval"} : \E b \in BOOLEAN :
                \E l \in [Stores -> LocClasses] : \E d \in [Stores -> DefLists] :
-                 x = CfgB(E, [i \in 1..4 |-> IF i \in E THEN All(ks) ELSE All("absent")], [i \in 1..4 |-> "plain"], All(b), l, d)
+                 x = CfgB(E, [i \in 1..4 |-> IF i \in E THEN All(ks) ELSE All("absent")], [i \in 1..4 |-> "plain"],
+                          All(IF b THEN "set" ELSE "unset"), l, d)
 
 \* value alphabets other than plain, on a reduced product of sources
 InitVal == \E E \in {{1}, {2, 3}} : \E k \in {q \in KeyFns(E) : q[MinOf(E)] \in {All("present"), All("absent")}} :
-             \E e \in {All(TRUE), All(FALSE), [s \in Settings |-> s = "pib"]} :
+             \E e \in {All("set"), All("unset"), [s \in Settings |-> IF s = "pib" THEN "set" ELSE "unset"]} :
                \E lc \in {"none", "absE", "relE", "absM"} : \E dx \in DefLists : \E v \in ValClasses \ {"plain"} :
                  x = CfgV(E, k, [i \in 1..4 |-> "plain"], e, [s \in Stores |-> lc], [s \in Stores |-> dx], v)
+\* present-but-empty sources (environment variable set to "", key written "key=")
+EmptyPairs == {p \in ([Settings -> EnvStates] \X {All(kv) : kv \in KeyStates})
+                      \cup ({All(ev) : ev \in EnvStates} \X [Settings -> {"present", "emptyval", "absent"}]) :
+                 \E s \in Settings : p[1][s] = "empty" \/ p[2][s] = "emptyval"}
+EmptyLocs == {"none", "absE", "relE", "absM"}
+InitEmpty == \E E \in Patterns : \E p \in EmptyPairs : \E k2 \in {All("absent"), All("present")} :
+               \E lc \in EmptyLocs : \E dx \in DefLists :
+                 /\ (Cardinality(E) < 2 => k2 = All("absent"))
+                 /\ (E = {} => p[2] = All("absent"))
+                 /\ x = CfgB(E, [i \in 1..4 |-> IF E # {} /\ i = MinOf(E) THEN p[2]
+                                                ELSE IF E # {} /\ i = MaxOf(E) THEN k2 ELSE All("absent")],
+                          [i \in 1..4 |-> "plain"], p[1], [s \in Stores |-> lc], [s \in Stores |-> dx])
+
+\* candidates that exist but are not readable files; the keys of a directory are meaningless (absent); a later regular
+\* file sets every key (so that using it instead shows)
+PatternsK == (Patterns \ {{}}) \cup {{1, 2}, {1, 2, 3}} \cup (IF Thorough THEN {{2, 3, 4}, {1, 3, 4}} ELSE {})
+KindEnvs == {All("set"), All("unset"), All("empty"), [s \in Settings |-> IF s = "pib" THEN "set" ELSE "unset"]}
+InitKind == \E E \in PatternsK : \E kd \in [E -> CandKinds] : \E k1 \in {"present", "absent", "commented"} :
+              \E e \in KindEnvs : \E lc \in EmptyLocs : \E dx \in DefLists :
+                /\ \E i \in E : kd[i] = "dir"
+                /\ (kd[MinOf(E)] = "dir" => k1 = "absent")
+                /\ x = CfgK(E, [i \in 1..4 |-> IF i \in E THEN kd[i] ELSE "file"],
+                          [i \in 1..4 |-> IF i \in E /\ kd[i] = "file" THEN (IF i = MinOf(E) THEN All(k1) ELSE All("present"))
+                                          ELSE All("absent")],
+                          [i \in 1..4 |-> "plain"], e, [s \in Stores |-> lc], [s \in Stores |-> dx], "plain")
 Plats == [new : BOOLEAN, old : BOOLEAN, sys : {"linux", "freebsd"}]
 
 \* supported, unsupported, and near misses of the supported ones
@@ -58,20 +91,23 @@ Uris == {Uri(sc, a, p, "") : sc \in Schemes \ {"unix", ""}, a \in {"h", "127.0.0
         \cup {Uri("", "", 0, "")}
 
 \* Mode = "conf" | "face" | "both" (one TLC run for the two domains)
-Init == \/ Mode \in {"conf", "both"} /\ kind = "conf" /\ (InitDiagonal \/ InitCross \/ InitVal) /\ out = Resolve(x)
+Init == \/ Mode \in {"conf", "both"} /\ kind = "conf" /\ (InitDiagonal \/ InitCross \/ InitVal \/ InitEmpty \/ InitKind) /\ out = Resolve(x)
         \/ Mode \in {"conf", "both"} /\ kind = "plat" /\ x \in Plats /\ out = PlatOf(x)
         \/ Mode \in {"face", "both"} /\ kind = "face" /\ x \in Uris /\ out = FaceOf(x)
 Next == UNCHANGED <<kind, x, out>>
 Spec == Init /\ [][Next]_<<kind, x, out>>
 
-I_Precedence  == kind = "conf" => P_EnvOverFileOverDefault(x, out)
-I_FirstFile   == kind = "conf" => P_OnlyFirstExistingFile(x, out)
-I_AsGiven     == kind = "conf" => P_ExistingUsedAsGiven(x, out)
-I_NextToFile  == kind = "conf" => P_RelativeNextToFile(x, out)
-I_FallBack    == kind = "conf" => P_MissingFallsBackToDefault(x, out)
-I_Determined  == kind = "conf" => \A s \in Stores : out[s].where # {}
-I_Content     == kind = "conf" => P_ContentClassIrrelevant(x, out)
-I_Values      == kind = "conf" => (P_ValueAlphabetIrrelevant(x, out) /\ P_ForeignTpmRefused(x, out))
+Ok == kind = "conf" /\ out.err = "none"        \* a result was resolved (not refused)
+I_Precedence  == Ok => P_EnvOverFileOverDefault(x, out)
+I_FirstFile   == Ok => P_OnlyFirstExistingFile(x, out)
+I_AsGiven     == Ok => P_ExistingUsedAsGiven(x, out)
+I_NextToFile  == Ok => P_RelativeNextToFile(x, out)
+I_FallBack    == Ok => P_MissingFallsBackToDefault(x, out)
+I_Determined  == Ok => \A s \in Stores : out[s].where # {}
+I_Content     == Ok => P_ContentClassIrrelevant(x, out)
+I_Values      == Ok => (P_ValueAlphabetIrrelevant(x, out) /\ P_ForeignTpmRefused(x, out))
+I_Empty       == Ok => P_EmptyRefusedNotReplaced(x, out)
+I_Unreadable  == kind = "conf" => P_UnreadableRefused(x, out)
 I_Plat        == kind = "plat" => /\ (x.sys = "linux" => out.cls = "Linux")
                                   /\ (x.sys = "freebsd" => out.cls = "err")
                                   /\ (out.cls = "Linux" => out.transport = IF x.old /\ ~x.new THEN "unix:///run/nfd.sock"
@@ -91,6 +127,12 @@ Witnesses ==
           /\ \E E \in Patterns : \E k \in KeyFns(E) : \E b \in BodyFns(E, k) :
                 Cardinality(E) = 2 /\ b[MinOf(E)] = "empty" /\ k[MaxOf(E)]["transport"] = "present"
           /\ \E E \in Patterns : \E k \in KeyFns(E) : \E b \in BodyFns(E, k) : E # {} /\ b[MinOf(E)] = "blank"
+          \* an empty override above a file value; an empty file value above nothing; both
+          /\ \E p \in EmptyPairs : p[1]["transport"] = "empty" /\ p[2]["transport"] = "present"
+          /\ \E p \in EmptyPairs : p[1]["pib"] = "unset" /\ p[2]["pib"] = "emptyval"
+          /\ \E p \in EmptyPairs : p[1]["tpm"] = "empty" /\ p[2]["tpm"] = "emptyval"
+          \* a directory first with a regular file after it; a regular file first with a directory after it
+          /\ \E E \in PatternsK : Cardinality(E) >= 2
           /\ "relE" \in LocClasses /\ "absM" \in LocClasses /\ <<FALSE>> \in DefLists /\ <<TRUE>> \in DefLists
   /\ (Mode \in {"face", "both"}) =>
           /\ \E u \in Uris : u.port = 0 /\ FaceOf(u).k = "udp"
